@@ -13,6 +13,20 @@ from . import astutil as A
 _UNKNOWN = object()
 
 
+class IterState(object):
+    """an iterator over a closed sequence, as a value: the items and how many of them have been taken"""
+    __slots__ = ('items', 'pos')
+
+    def __init__(self, items, pos=0):
+        self.items, self.pos = tuple(items), pos
+
+    def __hash__(self):
+        return hash(('iter', self.items, self.pos))
+
+    def __eq__(self, o):
+        return isinstance(o, IterState) and (o.items, o.pos) == (self.items, self.pos)
+
+
 def explore(cfg, env0, funcs=None, on_node=None, max_states=20000, start=None, unknown='both', on_unknown=None, pinned=(),
             concrete_exceptions=False, on_exception=None):
     """Explore all abstract states reachable from entry with environment `env0` (dict path -> constant).
@@ -42,6 +56,21 @@ def explore(cfg, env0, funcs=None, on_node=None, max_states=20000, start=None, u
                     continue
                 if val is _UNKNOWN or (val and l == 'T') or (not val and l == 'F'):
                     succs.append((s, env))
+        elif nd.kind == 'for' and isinstance(nd.stmt.iter, ast.Name) and isinstance(env.get(nd.stmt.iter.id), IterState):
+            # the loop draws from an explicit iterator held in a variable (shared with next() calls)
+            it = env[nd.stmt.iter.id]
+            env2 = dict(env)
+            if it.pos < len(it.items):
+                if isinstance(nd.ast, ast.Name):
+                    env2[nd.ast.id] = it.items[it.pos]
+                env2[nd.stmt.iter.id] = IterState(it.items, it.pos + 1)
+                for s, l in nd.succ:
+                    if l == 'next':
+                        succs.append((s, env2))
+            else:
+                for s, l in nd.succ:
+                    if l == 'done':
+                        succs.append((s, env2))
         elif nd.kind == 'for' and ('@it%d' % nd.id) in env:
             # iteration over an iterable that was closed when the loop was entered
             items, idx = env['@it%d' % nd.id]
@@ -91,7 +120,17 @@ def explore(cfg, env0, funcs=None, on_node=None, max_states=20000, start=None, u
                     if (p == k or p.startswith(k + '.') or p.startswith(k + '[')) and p not in pinned:
                         del env2[p]
             a = nd.ast
-            if nd.kind == 'stmt' and isinstance(a, ast.Assign) and len(a.targets) == 1:
+            is_iter = nd.kind == 'stmt' and isinstance(a, ast.Assign) and len(a.targets) == 1 and isinstance(a.targets[0], ast.Name) \
+                and isinstance(a.value, ast.Call) and isinstance(a.value.func, ast.Name) and a.value.func.id == 'iter' and len(a.value.args) == 1
+            if is_iter:
+                # x = iter(<closed sequence>)
+                try:
+                    seq = A.ev(a.value.args[0], env, funcs)
+                    if isinstance(seq, (tuple, list, str)):
+                        env2[a.targets[0].id] = IterState(seq)
+                except (A.NotClosed, TypeError):
+                    pass
+            if nd.kind == 'stmt' and isinstance(a, ast.Assign) and len(a.targets) == 1 and not is_iter:
                 p = path_of(a.targets[0])
                 if p and p not in pinned:
                     try:
